@@ -106,7 +106,36 @@ class C10(PipelineProp):
         return {"gen": "sliver/" + kind, "input": inp, "pretext": {"bpt": f"{t}.000000", "scaffolds": ptx},
                 "prefix": rng.choice(PREFIXES), "want_csv": True, "two": False}
 
+    def gen_same_name_unlocs(self, rng):
+        """the same chromosome name tag in both haplotypes, each with unloc pieces: the unlocs are numbered
+        _unloc_1..m within each haplotype's chromosome, by size"""
+        scs, ptx = [], []
+        tag = rng.choice(["X", "W1", "B2"])
+        for hap in ("HAP1", "HAP2"):
+            nm = f"{hap}_SCAFFOLD_1"
+            lens = [rng.randint(3000, 6000)] + [rng.randint(200, 2500) for _ in range(rng.randint(2, 3))]
+            rows, pos, spans = [], 0, []
+            for k, ln in enumerate(lens):
+                if k:
+                    rows.append(["G", 100, "scaffold"])
+                    pos += 100
+                rows.append(["F", nm, pos + 1, pos + ln, 1, []])
+                spans.append((pos + 1, pos + ln))
+                pos += ln
+            scs.append({"name": nm, "rows": rows})
+            prows = []
+            for k, (a, b) in enumerate(spans):
+                if prows:
+                    prows.append(list(P.PGAP))
+                prows.append(["F", nm, a if k == 0 else a - 50, b + 50 if k + 1 < len(spans) else b, rng.choice([1, -1]),
+                              ["Painted", hap, tag] + (["Unloc"] if k else [])])
+            ptx.append({"name": f"Scaffold_{len(ptx) + 1}", "rows": prows})
+        return {"gen": "same-name-unlocs", "input": {"scaffolds": scs}, "pretext": {"bpt": "1.000000", "scaffolds": ptx},
+                "prefix": rng.choice(PREFIXES), "want_csv": True, "two": True}
+
     def gen_case(self, rng):
+        if rng.random() < 0.05:
+            return self.gen_same_name_unlocs(rng)
         if rng.random() < 0.06:
             return self.gen_sliver(rng)
         two = rng.random() < 0.3
@@ -154,6 +183,18 @@ class C10(PipelineProp):
                 if want is not None and names != want:
                     return (f"output assembly {nm} lists its scaffolds as {names}; the assemblies it is made of are in "
                             f"rank-then-name order {want}")
+        # unlocs of one chromosome of one assembly are numbered 1..m without holes
+        for a in obs["asms"]:
+            if not a["curated"]:
+                continue
+            un = {}
+            for s_ in a["scaffolds"]:
+                mu = re.fullmatch(r"(.+)_unloc_(\d+)", s_["name"])
+                if mu:
+                    un.setdefault(mu.group(1), []).append(int(mu.group(2)))
+            for chrom, nums in un.items():
+                if sorted(nums) != list(range(1, len(nums) + 1)):
+                    return f"assembly {a['key']!r}: unlocs of {chrom} are numbered {sorted(nums)}, not 1..{len(nums)}"
         # haplotigs H_1..H_n by non-increasing length
         for a in obs["asms"]:
             if a["key"] == "Haplotig":
